@@ -286,6 +286,13 @@ def _mc_ocf(chk, tier):
         machinery_failure(f"MC_Ocf: {res.violated} violated by the specification itself")
     tlc.require_ok(res, "MC_Ocf")
     chk.add_tlc("MC_Ocf", res, "interleavings of lazy ranking, save, failed save, load")
+    # unbounded companion: CacheExact and DiskExact are inductive for any set of worlds, ranks, objects and files (TLAPS)
+    import tlaps
+
+    pr = tlaps.prove("OcfProof")
+    chk.cov["tlaps_OcfProof"] = {k: pr[k] for k in ("available", "proved", "refuted", "obligations", "wall_s")}
+    if pr["refuted"]:
+        machinery_failure("tlapm rejects an obligation of spec/OcfProof.tla:\n" + pr["out"])
 
 
 def check_C18(tier):
